@@ -111,7 +111,7 @@ def r1(src):  # h2/h2.go: tls.Dial -> verifDial (falls back to tls.Dial when Ver
 def r2(src):  # h2/relay.go: map iteration order of outputBuffers becomes a tape-chosen permutation
     pat = re.compile(r"range\s+r\.outputBuffers\b")
     out, n = pat.subn("range verifOrder(r.outputBuffers)", src)
-    return out, n, 2
+    return out, n, -1  # every iteration there is (two on the pinned tree), at least one
 
 
 def r3(src):  # trafficshape/bucket.go: the busy-wait of FillThrottle{,Locked} sleeps 1ms of simulated time per spin
@@ -154,13 +154,15 @@ def r5(src):  # mitm/mitm.go: yield points inside cert(): after the cache miss a
 def r6(src):  # trafficshape/listener.go: per-connection buckets are created in sorted regex order
     old = "\tfor regex, shape := range l.Shapes.M {\n"
     new = "\tfor _, regex := range verifKeys(l.Shapes.M) {\n\t\tshape := l.Shapes.M[regex]\n"
-    return src.replace(old, new), src.count(old), 1
+    return src.replace(old, new), src.count(old), -2
 
 
 def r7(src):  # trafficshape/conn.go: per-connection buckets are stopped in sorted regex order
     old = "\tfor _, bs := range c.LocalBuckets {\n"
     new = "\tfor _, verifK := range verifKeys(c.LocalBuckets) {\n\t\tbs := c.LocalBuckets[verifK]\n"
-    return src.replace(old, new), src.count(old), 1
+    # (0 sites is accepted: a tree whose Close does not iterate over the buckets has no iteration
+    # order to pin - whether it still releases them is for the check to say, not for the build)
+    return src.replace(old, new), src.count(old), -2
 
 
 LOCK_RE = re.compile(r"^([ \t]*)([A-Za-z_][\w\.\[\]\(\)\*]*\.R?Lock\(\))[ \t]*$", re.M)
@@ -218,7 +220,7 @@ def main():
         if path in replace:
             src = open(replace[path]).read()  # a second rewrite of the same file stacks on the first
         new, n, want = fn(src)
-        if (want < 0 and n < 1) or (want >= 0 and n != want):
+        if (want == -2 and n > 1) or (want == -1 and n < 1) or (want >= 0 and n != want):
             sys.stderr.write("instrument: %s matched %d sites in %s, expected %d\n" % (rid, n, rel, want))
             sys.exit(2)
         dst = os.path.join(outdir, rel.replace("/", "__"))
